@@ -112,7 +112,12 @@ type Conn struct {
 	// Ops counts Read/Write/Close calls by task id after MarkOwner (C17).
 	owner      string
 	ForeignOps int
+	// refused counts Write calls that failed because the peer had already closed or reset.
+	refused int
 }
+
+// WritesRefused is the number of Write calls on c that failed because the peer was gone.
+func (c *Conn) WritesRefused() (n int) { c.snapshot(func() { n = c.refused }); return }
 
 func (c *Conn) SimOrder() uint64 { return uint64(c.ID) }
 
@@ -273,6 +278,7 @@ func (c *Conn) tryWrite(p []byte) (n int, err error, wait time.Duration, done bo
 		return 0, c.opErr("write", timeoutErr{}), 0, true
 	}
 	if h.rst || c.peer.closed {
+		c.refused++
 		return 0, c.opErr("write", errPipe), 0, true
 	}
 	if len(p) == 0 {
